@@ -419,13 +419,14 @@ func c20Registration(cx *Ctx, r *Report, gm map[string]*genFile, svcs map[string
 	type pkgReg struct {
 		impls    map[string]bool
 		svcDescs map[string]bool
+		resps    map[string]bool // registered as tx.MsgResponse implementations
 	}
 	regs := map[string]*pkgReg{}
 	scan := func(dir string) *pkgReg {
 		if pr, ok := regs[dir]; ok {
 			return pr
 		}
-		pr := &pkgReg{impls: map[string]bool{}, svcDescs: map[string]bool{}}
+		pr := &pkgReg{impls: map[string]bool{}, svcDescs: map[string]bool{}, resps: map[string]bool{}}
 		regs[dir] = pr
 		ents, _ := os.ReadDir(dir)
 		for _, e := range ents {
@@ -473,7 +474,7 @@ func c20Registration(cx *Ctx, r *Report, gm map[string]*genFile, svcs map[string
 		}
 		// the same through the type-checked program, whatever the spelling: the interface
 		// pointer or the descriptor may sit in a local, the calls in a helper
-		ssaRegistrations(cx, modPrefix+rel(dir), pr.impls, pr.svcDescs)
+		ssaRegistrations(cx, modPrefix+rel(dir), pr.impls, pr.svcDescs, pr.resps)
 		return pr
 	}
 	var names []string
@@ -501,8 +502,27 @@ func c20Registration(cx *Ctx, r *Report, gm map[string]*genFile, svcs map[string
 		dir := filepath.Dir(holder.path)
 		pr := scan(dir)
 		wantDesc := "&_" + s.name + "_serviceDesc"
-		r.check(pr.svcDescs[wantDesc], "msg-service-desc", sn, rel(dir), "RegisterMsgServiceDesc(registry, "+wantDesc+") is called in the package", "RegisterMsgServiceDesc is not called for "+wantDesc+" in "+rel(dir))
 		pkgOf := sn[:strings.LastIndex(sn, ".")]
+		// RegisterMsgServiceDesc registers the requests as sdk.Msg and the responses as
+		// tx.MsgResponse; doing both by hand for every rpc of the service is the same thing
+		byHand := len(s.rpcs) > 0
+		for _, rpc := range s.rpcs {
+			in, out := rpc.in, rpc.out
+			if i := strings.LastIndex(in, "."); i >= 0 {
+				in = in[i+1:]
+			}
+			if i := strings.LastIndex(out, "."); i >= 0 {
+				out = out[i+1:]
+			}
+			if !pr.impls[in] || !pr.resps[out] {
+				byHand = false
+			}
+		}
+		if byHand && !pr.svcDescs[wantDesc] {
+			r.ok("msg-service-desc", sn, rel(dir), "every request of the service is registered as sdk.Msg and every response as tx.MsgResponse explicitly (what RegisterMsgServiceDesc does)")
+		} else {
+			r.check(pr.svcDescs[wantDesc], "msg-service-desc", sn, rel(dir), "RegisterMsgServiceDesc(registry, "+wantDesc+") is called in the package", "RegisterMsgServiceDesc is not called for "+wantDesc+" in "+rel(dir))
+		}
 		for _, rpc := range s.rpcs {
 			in := rpc.in
 			full := in
@@ -771,7 +791,7 @@ func exprString(e ast.Expr) string {
 // ssaRegistrations: in the functions of package path, the types handed to
 // InterfaceRegistry.RegisterImplementations with a *sdk.Msg first argument, and the
 // globals handed to msgservice.RegisterMsgServiceDesc.
-func ssaRegistrations(cx *Ctx, path string, impls, descs map[string]bool) {
+func ssaRegistrations(cx *Ctx, path string, impls, descs, resps map[string]bool) {
 	peel := func(v ssa.Value) ssa.Value {
 		for {
 			switch x := v.(type) {
@@ -801,6 +821,9 @@ func ssaRegistrations(cx *Ctx, path string, impls, descs map[string]bool) {
 				switch {
 				case strings.HasSuffix(name, "RegisterImplementations") && len(c.Args) >= 2:
 					first := peel(c.Args[0])
+					if os.Getenv("DEBUG_C20") != "" {
+						fmt.Fprintf(os.Stderr, "RegisterImplementations in %s first=%s (%T)\n", f, first.Type(), first)
+					}
 					pt, isPtr := first.Type().(*types.Pointer)
 					if !isPtr {
 						continue
@@ -822,15 +845,44 @@ func ssaRegistrations(cx *Ctx, path string, impls, descs map[string]bool) {
 							isMsg = true
 						}
 					}
+					// (with transparent aliases sdk.Msg is the bare interface {ProtoMessage(); Reset(); String() string})
+					if it, ok := pt.Elem().Underlying().(*types.Interface); ok && !isMsg && namedOf(pt.Elem()) == nil && it.NumMethods() == 3 {
+						names := map[string]bool{}
+						for i := 0; i < it.NumMethods(); i++ {
+							names[it.Method(i).Name()] = true
+						}
+						isMsg = names["ProtoMessage"] && names["Reset"] && names["String"]
+					}
 					if !isMsg {
+						// the responses, registered by hand under tx.MsgResponse
+						if nt := namedOf(pt.Elem()); nt != nil && nt.Obj().Name() == "MsgResponse" && nt.Obj().Pkg() != nil && strings.HasSuffix(nt.Obj().Pkg().Path(), "/types/tx") {
+							for _, e := range variadicElems(c.Args[len(c.Args)-1]) {
+								if e != nil {
+									if tn := namedOf(peel(e).Type()); tn != nil {
+										resps[tn.Obj().Name()] = true
+									}
+								}
+							}
+							for _, name := range tableColumnTypes(cx, c.Args[len(c.Args)-1]) {
+								resps[name] = true
+							}
+						}
 						continue
 					}
-					for _, e := range variadicElems(c.Args[len(c.Args)-1]) {
+					els := variadicElems(c.Args[len(c.Args)-1])
+					for _, e := range els {
 						if e == nil {
 							continue
 						}
 						if tn := namedOf(peel(e).Type()); tn != nil {
 							impls[tn.Obj().Name()] = true
+						}
+					}
+					if len(els) == 0 {
+						// a list built from one column of a package-level table
+						// (for _, t := range msgTypes { reqs = append(reqs, t.req) })
+						for _, name := range tableColumnTypes(cx, c.Args[len(c.Args)-1]) {
+							impls[name] = true
 						}
 					}
 				case strings.HasSuffix(name, "RegisterMsgServiceDesc") && len(c.Args) == 2:
@@ -842,4 +894,163 @@ func ssaRegistrations(cx *Ctx, path string, impls, descs map[string]bool) {
 			}
 		}
 	}
+}
+
+// tableColumnTypes: the slice is filled by appending field f of the entries of a
+// package-level table (a slice literal assigned once in the package initialiser): the
+// concrete types stored in that column.
+func tableColumnTypes(cx *Ctx, v ssa.Value) []string {
+	peel := func(v ssa.Value) ssa.Value {
+		for {
+			switch x := v.(type) {
+			case *ssa.MakeInterface:
+				v = x.X
+			case *ssa.ChangeType:
+				v = x.X
+			case *ssa.ChangeInterface:
+				v = x.X
+			default:
+				return v
+			}
+		}
+	}
+	type col struct {
+		g *ssa.Global
+		f int
+	}
+	cols := map[col]bool{}
+	other := false
+	seen := map[ssa.Value]bool{}
+	var elem func(e ssa.Value)
+	elem = func(e ssa.Value) {
+		e = peel(e)
+		var base ssa.Value
+		field := -1
+		switch x := e.(type) {
+		case *ssa.UnOp:
+			if fa, ok := x.X.(*ssa.FieldAddr); ok && x.Op == token.MUL {
+				base, field = fa.X, fa.Field
+			}
+		case *ssa.Field:
+			base, field = x.X, x.Field
+		}
+		if field < 0 {
+			other = true
+			return
+		}
+		// the entry: a local copy of table[i], or table[i] itself
+		for d := 0; d < 4; d++ {
+			switch y := base.(type) {
+			case *ssa.Alloc:
+				var st *ssa.Store
+				if y.Referrers() != nil {
+					for _, r := range *y.Referrers() {
+						if s2, ok := r.(*ssa.Store); ok && s2.Addr == ssa.Value(y) {
+							st = s2
+						}
+					}
+				}
+				if st == nil {
+					other = true
+					return
+				}
+				base = st.Val
+				continue
+			case *ssa.UnOp:
+				base = y.X
+				continue
+			case *ssa.IndexAddr:
+				base = y.X
+				continue
+			case *ssa.Index:
+				base = y.X
+				continue
+			}
+			break
+		}
+		if g, ok := base.(*ssa.Global); ok {
+			cols[col{g, field}] = true
+			return
+		}
+		other = true
+	}
+	var visit func(v ssa.Value, d int)
+	visit = func(v ssa.Value, d int) {
+		if v == nil || seen[v] || d > 12 {
+			return
+		}
+		seen[v] = true
+		switch x := v.(type) {
+		case *ssa.Phi:
+			for _, e := range x.Edges {
+				visit(e, d+1)
+			}
+		case *ssa.Slice:
+			visit(x.X, d+1)
+		case *ssa.Call:
+			if b, ok := x.Common().Value.(*ssa.Builtin); ok && b.Name() == "append" && len(x.Common().Args) == 2 {
+				visit(x.Common().Args[0], d+1)
+				for _, e := range variadicElems(x.Common().Args[1]) {
+					if e != nil {
+						elem(e)
+					}
+				}
+				return
+			}
+			other = true
+		case *ssa.MakeSlice, *ssa.Const:
+		default:
+			other = true
+		}
+	}
+	visit(v, 0)
+	if os.Getenv("DEBUG_C20") != "" {
+		fmt.Fprintf(os.Stderr, "tableColumnTypes: other=%v cols=%d\n", other, len(cols))
+	}
+	if other || len(cols) != 1 {
+		return nil
+	}
+	var out []string
+	for c := range cols {
+		in := c.g.Pkg.Func("init")
+		if in == nil {
+			return nil
+		}
+		for _, b := range in.Blocks {
+			for _, ins := range b.Instrs {
+				st, ok := ins.(*ssa.Store)
+				if !ok || st.Addr != ssa.Value(c.g) {
+					continue
+				}
+				sl, ok := st.Val.(*ssa.Slice)
+				if !ok {
+					return nil
+				}
+				arr, ok := sl.X.(*ssa.Alloc)
+				if !ok || arr.Referrers() == nil {
+					return nil
+				}
+				for _, r := range *arr.Referrers() {
+					ia, ok := r.(*ssa.IndexAddr)
+					if !ok || ia.Referrers() == nil {
+						continue
+					}
+					for _, r2 := range *ia.Referrers() {
+						fa, ok := r2.(*ssa.FieldAddr)
+						if !ok || fa.Field != c.f || fa.Referrers() == nil {
+							continue
+						}
+						for _, r3 := range *fa.Referrers() {
+							if s3, ok := r3.(*ssa.Store); ok && s3.Addr == ssa.Value(fa) {
+								if tn := namedOf(peel(s3.Val).Type()); tn != nil {
+									out = append(out, tn.Obj().Name())
+								}
+							}
+						}
+					}
+				}
+			}
+		}
+	}
+	return out
 }
